@@ -40,4 +40,31 @@ PROPS = {
             "humantime::parse_duration (oracle table for every parenthesised substring of every tag)",
         ],
     },
+    "C13": {
+        "module": "Cuke.Props.C13",
+        "namespace": "Cuke.C13",
+        "families": [("pipe.comb", 3000, 150000)],
+        "modelled_not_verified": [
+            "custom predicates/filters are drawn from a small closed family (always/never/parity/...) on both sides",
+            "recording leaf writers and the dynamic boxing adapter (DynW) are harness code",
+        ],
+    },
+    "C12": {
+        "module": "Cuke.Props.C12",
+        "namespace": "Cuke.C12",
+        "families": [("pipe.summ", 3000, 150000)],
+        "modelled_not_verified": [
+            "the summary TEXT (Styles::summary) is parsed back by the harness into its numbers; formatting is not modelled",
+            "usize arithmetic as Nat (skipped -= 1 never underflows on canonical streams)",
+        ],
+    },
+    "C01": {
+        "module": "Cuke.Props.C01",
+        "namespace": "Cuke.C01",
+        "families": [("pipe.verdict", 3000, 150000)],
+        "modelled_not_verified": [
+            "process exit status / the panic! in filter_run_and_exit (the Stats getters it reads are compared)",
+            "Libtest's own verdict is covered with C14 once the reporters are modelled",
+        ],
+    },
 }
